@@ -7,7 +7,6 @@ import (
 	"strings"
 
 	square "github.com/celestiaorg/go-square/v2"
-	"github.com/celestiaorg/go-square/v2/inclusion"
 	"github.com/celestiaorg/go-square/v2/share"
 	"github.com/celestiaorg/go-square/v2/tx"
 )
@@ -342,7 +341,12 @@ func (c *Ctx) squareCase(sc sqCase) {
 				fail("C04", fmt.Sprintf("blob %d of kept blob tx %d (%d bytes, version %d): its %d shares do not appear verbatim at the recorded index %d", p.blobPos, p.txPos, len(p.blob.Data()), p.blob.ShareVersion(), nsh, p.idx))
 				break
 			}
-			if w := inclusion.SubTreeWidth(nsh, sc.thr); p.idx%w != 0 {
+			// the width rule from an independent reference (not the function under test)
+			w := int(refLeastPow2Ge(refCeilDiv(uint64(nsh), uint64(sc.thr))))
+			if ms := int(refMinSide(uint64(nsh))); ms < w {
+				w = ms
+			}
+			if p.idx%w != 0 {
 				fail("C04", fmt.Sprintf("recorded index %d of a %d-share blob is not a multiple of its subtree width %d", p.idx, nsh, w))
 			}
 			if oi > 0 && p.idx < prevEnd {
@@ -842,7 +846,6 @@ func streamBHist(c *Ctx) {
 		}
 	}
 }
-
 
 // ---- KF1: the committed witnesses of the known finding (DESIGN.md §7) ----
 
